@@ -1,7 +1,7 @@
 #!/bin/bash
 # evaluates every /tmp/seed/Cxx-out/k that has meta.json and no verify.log yet
 cd /verif
-for d in /tmp/seed/C*-out/[12]; do
+for d in ${SEEDROOT:-/tmp/seed}/C*-out/[12]; do
   [ -f "$d/meta.json" ] || continue
   [ -f "$d/patch.diff" ] || continue
   [ -f "$d/verify.log" ] && grep -q '^RESULT' "$d/verify.log" && continue
